@@ -66,7 +66,7 @@ def build(recipe):
         buffers.append(np.ascontiguousarray(np.atleast_1d(arr)).view(np.uint8).reshape(-1))
         return len(buffers) - 1
 
-    def add_tensor(name, shape, dtype, q=None, data=None, qdim=0, shape_sig=None):
+    def add_tensor(name, shape, dtype, q=None, data=None, qdim=0, shape_sig=None, variable=False):
         if not dup_names:
             k = names_used.get(name, 0)
             names_used[name] = k + 1
@@ -83,6 +83,8 @@ def build(recipe):
             t["Quantization"] = {"Scale": sc, "ZeroPoint": zp, "QuantizedDimension": int(qdim)}
         if shape_sig is not None:
             t["ShapeSignature"] = shape_sig
+        if variable:
+            t["IsVariable"] = True
         tensors.append(t)
         return len(tensors) - 1
 
@@ -92,8 +94,10 @@ def build(recipe):
             opcodes.append(key)
         return opcodes.index(key)
 
-    def add_op(code, ins, outs, opt=None, version=1, custom=None, custom_options=None):
+    def add_op(code, ins, outs, opt=None, version=1, custom=None, custom_options=None, intermediates=None):
         o = {"OpcodeIndex": opcode(code, version, custom), "Inputs": [int(i) for i in ins], "Outputs": [int(i) for i in outs]}
+        if intermediates is not None:
+            o["Intermediates"] = [int(i) for i in intermediates]
         if opt is not None:
             o["BuiltinOptionsType"] = BOPT[opt[0]]
             o["BuiltinOptions"] = opt
@@ -324,6 +328,56 @@ def build(recipe):
             shp[ax] //= n
             outs = [new_value(f"{nm}_{j}", shp, x["dtype"], x["q"]) for j in range(n)]
             add_op(BO[op], [at, x["t"]], [o["t"] for o in outs], ("SplitOptions", {"NumSplits": n}))
+        elif op == "LSTM":
+            # UNIDIRECTIONAL_SEQUENCE_LSTM, fully integer (8x8->16): no CIFG / peephole / projection / layer normalisation unless asked for
+            tm = bool(L.get("time_major", False))
+            if len(x["shape"]) < 1:
+                raise ValueError("LSTM input must have a shape")
+            n_batch = x["shape"][1] if (tm and len(x["shape"]) >= 2) else x["shape"][0]  # (anything but 3D is a corner case for C13)
+            n_in, n_cell = x["shape"][-1], L["units"]
+            adt = x["dtype"]  # int8 (int16 activations: the 16x8 flavour)
+            wsc = f32(L.get("wscale", 0.01))
+            ins_ = [x["t"]]
+            for g, gname in enumerate(("i", "f", "c", "o")):
+                if g == 0 and L.get("cifg"):
+                    ins_.append(-1)
+                    continue
+                ins_.append(add_tensor(f"{nm}_w_in_{gname}", [n_cell, n_in], "int8", ([wsc], [0]), _weights(rs, [n_cell, n_in], L.get("wstyle", "uniform"), "int8")))
+            for g, gname in enumerate(("i", "f", "c", "o")):
+                if g == 0 and L.get("cifg"):
+                    ins_.append(-1)
+                    continue
+                rshape = [n_cell, n_cell] if not L.get("rec3d") else [1, n_cell, n_cell]
+                ins_.append(add_tensor(f"{nm}_w_rec_{gname}", rshape, "int8", ([wsc], [0]), _weights(rs, rshape, L.get("wstyle", "uniform"), "int8")))
+            for gname in ("i", "f", "o"):  # peephole
+                if L.get("peephole"):
+                    ins_.append(add_tensor(f"{nm}_w_peep_{gname}", [n_cell], "int16", ([f32(2 ** -15)], [0]), rs.randint(-3000, 3000, size=(n_cell,)).astype(np.int16)))
+                else:
+                    ins_.append(-1)
+            bsc = f32(f32(x["q"][0]) * wsc)
+            for g, gname in enumerate(("i", "f", "c", "o")):
+                if g == 0 and L.get("cifg"):
+                    ins_.append(-1)
+                    continue
+                ins_.append(add_tensor(f"{nm}_b_{gname}", [n_cell], "int32", ([bsc], [0]), rs.randint(-L.get("bmax", 2000), L.get("bmax", 2000) + 1, size=(n_cell,)).astype(np.int32)))
+            ins_ += [-1, -1]  # projection
+            hq = tuple(oq)
+            ins_.append(add_tensor(f"{nm}_state_h", [n_batch, n_cell], adt, hq, None, variable=not L.get("state_not_variable")))
+            ins_.append(add_tensor(f"{nm}_state_c", [n_batch, n_cell], "int16", ([f32(2.0 ** -L.get("cell_pow", 11))], [0]), None, variable=not L.get("state_not_variable")))
+            if L.get("layer_norm"):
+                for gname in ("i", "f", "c", "o"):
+                    ins_.append(add_tensor(f"{nm}_ln_{gname}", [n_cell], "int16", ([f32(2 ** -10)], [0]), rs.randint(500, 2000, size=(n_cell,)).astype(np.int16)))
+            else:
+                ins_ += [-1, -1, -1, -1]
+            ins_ = ins_[:L.get("n_inputs", 24)]
+            inter = [add_tensor(f"{nm}_inter{j}", [0], "int16", ([f32(2.0 ** -12)], [0])) for j in range(4)]
+            inter.append(add_tensor(f"{nm}_inter4", [0], "int8", ([f32(L.get("hidden_scale", hq[0]))], [int(L.get("hidden_zp", hq[1]))])))
+            inter = inter[:L.get("n_intermediates", 5)]
+            oshape = list(x["shape"][:-1]) + [n_cell]
+            y = new_value(nm, oshape, adt, hq)
+            add_op(BO["UNIDIRECTIONAL_SEQUENCE_LSTM"], ins_, [y["t"]],
+                   ("UnidirectionalSequenceLSTMOptions", {"FusedActivationFunction": 4, "CellClip": f32(L.get("cell_clip", 0.0)), "ProjClip": f32(0.0), "TimeMajor": tm,
+                                                         "AsymmetricQuantizeInputs": False}), version=L.get("version", 3), intermediates=inter)
         elif op == "SPLIT_V":
             ax, sizes = L["axis"], list(L["sizes"])
             if sum(sizes) != x["shape"][ax] or min(sizes) < 1:
@@ -434,13 +488,14 @@ def build_bytes(recipe):
 ACCELS = ["ethos-u55-32", "ethos-u55-64", "ethos-u55-128", "ethos-u55-256", "ethos-u65-256", "ethos-u65-512"]
 MEMMODES = [None, "Sram_Only", "Shared_Sram", "Dedicated_Sram"]
 
-FAMILIES = ["conv", "dw", "pool", "ew", "act", "lut", "shape", "fc", "resize", "mean", "softmax", "cpu", "tconv"]
+FAMILIES = ["conv", "dw", "pool", "ew", "act", "lut", "shape", "fc", "resize", "mean", "softmax", "cpu", "tconv", "lstm"]
 
 
 def swarm_config(r, profile="mixed"):
     """Per-run swarm: which op families are enabled and how sizes are biased."""
     fams = {f: (r.random() < 0.6) for f in FAMILIES}
     fams["conv"] = fams["conv"] or r.random() < 0.7
+    fams["lstm"] = r.random() < 0.2  # unrolled in time and batch: large; kept rarer than the other families
     if profile == "npu_only":
         fams["cpu"] = False
     if profile == "cpu_mix":
@@ -865,6 +920,23 @@ def gen_recipe(r, cfg=None, profile="mixed"):
                      wstyle="uniform", wscale=0.01, bias=r.random() < 0.5)
             L["in"] = [xi]
             emit(L, [1, OH, OW, oc], oq)
+        elif fam == "lstm":
+            if dtype != "int8" or C > 64:
+                continue
+            # the tensor seen as a sequence: [batch, time, feature] or, time major, [time, batch, feature]
+            splits = [(nb, (H * W) // nb) for nb in (1, 1, 2, 3) if (H * W) % nb == 0 and (H * W) // nb <= 6 and H * W <= 12]
+            if not splits:
+                continue
+            nb, nt = r.choice(splits)
+            tm = r.random() < 0.5
+            shp3 = [nt, nb, C] if tm else [nb, nt, C]
+            a_ = emit(dict(op="RESHAPE", shape=shp3, **{"in": [xi]}), shp3, x["q"])
+            units = r.choice([1, 4, 8, 16, 16, 24, 32])
+            hq = (f32(r.choice([1 / 128, 0.006, 0.01])), r.choice([0, 0, -5, 10]))
+            y_ = emit(dict(op="LSTM", units=units, q=list(hq), time_major=tm, wscale=f32(r.choice([0.002, 0.004, 0.008])), cell_pow=r.choice([9, 10, 11, 12]),
+                           cell_clip=r.choice([0.0, 0.0, 1.5, 8.0]), bmax=r.choice([0, 500, 5000]), wstyle=r.choice(["uniform", "small", "sparse"]), **{"in": a_}),
+                      shp3[:2] + [units], hq)
+            emit(dict(op="RESHAPE", shape=[1, shp3[0], shp3[1], units], **{"in": y_}), [1, shp3[0], shp3[1], units], hq)
         elif fam == "cpu":
             kind = r.choice(["custom", "deq_floor_q", "gather", "big_stride", "unsupported_act", "dyn_fc", "argmax"])
             if kind == "dyn_fc" and dtype in ("int8", "uint8") and elems <= 4096:
@@ -1087,7 +1159,7 @@ def gen_corner_recipe(r):
     quantisation, unsupported operators and attribute values, dynamic weights, third-party custom operators."""
     dt = r.choice(["int8", "int8", "uint8", "int16", "int32", "float32"])
     q = (lambda: None) if dt in ("float32",) or r.random() < 0.12 else (lambda: list(_rand_q(r, dt if dt != "int32" else "int16")))
-    kind = r.choice(["ew", "ew", "unary", "unary", "conv", "conv", "dw", "fc", "pool", "shape", "mean", "softmax", "resize", "unsupported", "chain"])
+    kind = r.choice(["ew", "ew", "unary", "unary", "conv", "conv", "dw", "fc", "pool", "shape", "mean", "softmax", "resize", "unsupported", "chain", "lstm"])
     inputs, layers = [], []
 
     def inp(shape, dtype=dt, qq="auto"):
@@ -1278,6 +1350,25 @@ def gen_corner_recipe(r):
             x0 = inp(shp)
             layers.append(dict(op="CUSTOM", code=r.choice(["Vendor", "TFLite_Detection_PostProcess", ""]), options=[r.randrange(256) for _ in range(r.randint(0, 40))],
                                **{"in": [x0]}))
+    elif kind == "lstm":
+        ldt = dt if dt in ("int8", "int8", "int16", "uint8") else "int8"
+        tm = r.random() < 0.5
+        shp = [r.choice([1, 1, 2, 3, 5]), r.choice([1, 2, 3, 4]), r.choice([1, 3, 8, 20, 130])]
+        if r.random() < 0.1:
+            shp = shp[r.choice([0, 1]):] if r.random() < 0.5 else [1] + shp  # not 3D
+        x0 = inp(shp, dtype=ldt, qq=list(_rand_q(r, ldt)))
+        L = dict(op="LSTM", units=r.choice([1, 2, 7, 16, 33]), q=list(_rand_q(r, ldt)) if r.random() < 0.5 else [f32(1 / 128), 0], time_major=tm,
+                 wscale=f32(r.choice([0.002, 0.01])), cell_pow=r.choice([8, 11, 15]), cell_clip=r.choice([0.0, 1.0, 10.0]), **{"in": [x0]})
+        twist = r.choice([None, None, "cifg", "peephole", "layer_norm", "rec3d", "n_inputs", "n_intermediates", "state_not_variable", "hidden"])
+        if twist in ("cifg", "peephole", "layer_norm", "rec3d", "state_not_variable"):
+            L[twist] = True
+        elif twist == "n_inputs":
+            L["n_inputs"] = r.choice([20, 18])
+        elif twist == "n_intermediates":
+            L["n_intermediates"] = r.choice([0, 4])
+        elif twist == "hidden":
+            L["hidden_scale"], L["hidden_zp"] = f32(0.02), 7
+        layers.append(L)
     else:  # chain: an ordinary generated network with one corner twist
         rec = gen_recipe(r, profile="mixed")
         return rec
